@@ -9,7 +9,8 @@
 (*                                                                          *)
 (* A text is a sequence of grapheme ids; Tab[id] = <<width, class>> with    *)
 (* class 0 = white space, 1 = word constituent (base code point is a letter *)
-(* or digit), 2 = anything else.  The cursor is a gap index 0..Len(text).   *)
+(* or digit), 3 = a character that cannot be displayed (C0 control, DEL),   *)
+(* 2 = anything else.  The cursor is a gap index 0..Len(text).              *)
 EXTENDS Naturals, Sequences, FiniteSets
 
 Ed(t, c) == [text |-> t, cur |-> c]
@@ -23,6 +24,16 @@ Cut(t, a, b) == SubSeq(t, 1, a) \o SubSeq(t, b + 1, Len(t))      \* removes t[a+
 
 Cls(tab, g) == tab[g][2]
 Wd(tab, g) == tab[g][1]
+Displayable(tab, t) == \A p \in 1..Len(t) : Cls(tab, t[p]) # 3
+(* What a paste of gs may leave in the text: "every pasted character appears *)
+(* exactly once at the cursor"; for a character that cannot be displayed the *)
+(* statement is silent, so it may be kept or dropped - every displayable    *)
+(* grapheme stays, in order.                                                *)
+RECURSIVE Kept(_, _)
+Kept(tab, gs) ==
+  IF gs = <<>> THEN {<<>>}
+  ELSE LET rest == Kept(tab, Tail(gs)) IN
+       {<<Head(gs)>> \o r : r \in rest} \cup (IF Cls(tab, Head(gs)) = 3 THEN rest ELSE {})
 RECURSIVE WidthOf(_, _)
 WidthOf(tab, t) == IF t = <<>> THEN 0 ELSE Wd(tab, Head(t)) + WidthOf(tab, Tail(t))
 
@@ -44,10 +55,17 @@ BackBlankWord(tab, t, c) == MaxOf({p \in BlankStarts(tab, t) : p < c} \cup {0})
 (* empties the field, "keep" otherwise.                                     *)
 Next(tab, cfg, ed, op) ==
   LET t == ed.text  c == ed.cur  n == Len(ed.text) IN
-  CASE op.k \in {"ins", "paste"} -> {Ed(Ins(t, c, op.gs), c + Len(op.gs))}
-    \* a key whose text joins the cluster left of the cursor (op.i, a logged segmentation fact): that
-    \* cluster becomes op.gs[1]; the number of graphemes and the cursor do not change
-    [] op.k = "insjoin" -> {IF c > 0 /\ t[c] = op.i THEN Ed([t EXCEPT ![c] = op.gs[1]], c) ELSE Ed(Ins(t, c, op.gs), c + 1)}
+  CASE op.k = "ins" -> {Ed(Ins(t, c, op.gs), c + Len(op.gs))}
+    \* pasted text is text, whatever keys its characters would be when typed (a pasted carriage return
+    \* is not Enter being pressed, a pasted ^A is not beginning-of-line): it is inserted at the cursor
+    \* ("pastectl" = a paste that contains such characters)
+    [] op.k \in {"paste", "pastectl"} -> {Ed(Ins(t, c, kept), c + Len(kept)) : kept \in Kept(tab, op.gs)}
+    \* typed ("insjoin") or pasted ("pastejoin") text whose first character joins the cluster left of the
+    \* cursor (op.i, a logged segmentation fact): that cluster becomes op.gs[1], which adds no grapheme
+    \* and does not move the cursor; the remaining graphemes are inserted behind it
+    [] op.k \in {"insjoin", "pastejoin"} ->
+         {IF c > 0 /\ t[c] = op.i THEN Ed(Ins([t EXCEPT ![c] = op.gs[1]], c, Tail(op.gs)), c + Len(op.gs) - 1)
+          ELSE Ed(Ins(t, c, op.gs), c + Len(op.gs))}
     [] op.k = "left"    -> {Ed(t, IF c > 0 THEN c - 1 ELSE 0)}
     [] op.k = "right"   -> {Ed(t, IF c < n THEN c + 1 ELSE n)}
     [] op.k = "home"    -> {Ed(t, 0)}
@@ -78,16 +96,21 @@ IsEvent(op) == op.via = "key"
 (* submitted value iff Enter.                                               *)
 ChangeOK(ed, ed2, op, chg) ==
   IF ~IsEvent(op) \/ op.k = "enter" THEN TRUE
-  ELSE IF op.k \in {"ins", "paste"}
-       THEN chg = [j \in 1..Len(op.gs) |-> Ins(ed.text, ed.cur, SubSeq(op.gs, 1, j))]
+  ELSE IF op.k \in {"ins", "paste", "pastectl"}     \* kept = the graphemes that were inserted
+       THEN LET kept == SubSeq(ed2.text, ed.cur + 1, ed2.cur) IN
+            chg = [j \in 1..Len(kept) |-> Ins(ed.text, ed.cur, SubSeq(kept, 1, j))]
+  ELSE IF op.k \in {"insjoin", "pastejoin"} /\ ed.cur > 0 /\ ed.text[ed.cur] = op.i
+       THEN LET t1 == [ed.text EXCEPT ![ed.cur] = op.gs[1]] IN
+            chg = [j \in 1..Len(op.gs) |-> Ins(t1, ed.cur, SubSeq(op.gs, 2, j))]
   ELSE IF ed2.text # ed.text THEN chg = <<ed2.text>> ELSE chg = <<>>
 SubmitOK(ed, op, sub) ==
   IF op.k = "enter" /\ IsEvent(op) THEN sub = <<ed.text>> ELSE sub = <<>>
 
 (* Drawn cursor column: while prompt + text + the cursor cell fit the       *)
 (* window, it is the prompt width plus the width of the text before the     *)
-(* cursor.  w < 0: the driver did not draw.                                 *)
+(* cursor.  w < 0: the driver did not draw.  A text holding a character     *)
+(* that cannot be displayed has no display width: not judged.               *)
 Fits(tab, cfg, ed, w) == cfg.pw + WidthOf(tab, ed.text) < w
 ColOK(tab, cfg, ed, w, col) ==
-  (Fits(tab, cfg, ed, w) /\ w > 0) => col = cfg.pw + WidthOf(tab, SubSeq(ed.text, 1, ed.cur))
+  (Fits(tab, cfg, ed, w) /\ w > 0 /\ Displayable(tab, ed.text)) => col = cfg.pw + WidthOf(tab, SubSeq(ed.text, 1, ed.cur))
 =============================================================================
